@@ -11,11 +11,13 @@ NAME="$(basename "$(dirname "$PATCH")")-$$"
 WT="${TMPDIR:-/tmp}/verif-mut-$NAME"
 OUT="${TMPDIR:-/tmp}/verif-mut-out-$NAME"
 git -C "${VERIF_REPO:-/repo}" worktree add -q --detach "$WT" HEAD || exit 2
-trap 'git -C "${VERIF_REPO:-/repo}" worktree remove --force "$WT" 2>/dev/null; rm -rf "$OUT" "$VERIF/.build-mut-$NAME"' EXIT
+MT="$OUT.tmp"   # what a changed library leaves in the temporary directory goes away with the run
+mkdir -p "$MT"
+trap 'git -C "${VERIF_REPO:-/repo}" worktree remove --force "$WT" 2>/dev/null; rm -rf "$OUT" "$MT" "$VERIF/.build-mut-$NAME"' EXIT
 if ! git -C "$WT" apply "$PATCH"; then echo "PATCH-DOES-NOT-APPLY $PATCH"; exit 2; fi
 rc=0
 for id in "$@"; do
-	VERIF_REPO="$WT" VERIF_BUILD="$VERIF/.build-mut-$NAME" VERIF_OUT="$OUT" "$VERIF/check" "$id" "$TIER" >"$OUT.$id.log" 2>&1
+	TMPDIR="$MT" VERIF_REPO="$WT" VERIF_BUILD="$VERIF/.build-mut-$NAME" VERIF_OUT="$OUT" "$VERIF/check" "$id" "$TIER" >"$OUT.$id.log" 2>&1
 	st=$?
 	if [ $st -eq 1 ] && grep -q "^VIOLATION property=$id" "$OUT.$id.log"; then
 		echo "DETECTED $id $(basename "$(dirname "$PATCH")") ($(grep -c '^VIOLATION' "$OUT.$id.log") violation lines; first: $(grep -A1 '^VIOLATION' "$OUT.$id.log" | sed -n 2p | cut -c1-200))"
